@@ -1,10 +1,10 @@
 CONSTANTS K = 1
-MaxLen = 5
+MaxLen = 4
 Patterns <- PD4
 Patterns2 <- PD4
 Starts <- SAll
 Syms <- Sym4
-Rows <- R2
+Rows <- R1
 Modes <- BothModes
 Widths <- W38
 ChkKinds <- CkNone
